@@ -254,9 +254,11 @@ type World struct {
 	Journal    []*JBlock // recorded history (only when RecordJournal was set at creation)
 	record     bool
 	inHook     bool
+	inReadHook bool
 	blocksFed  int
 	pendingObs []*state.AppExecResult
 	txMeta     map[*transaction.Transaction]*JTx
+	sigMeta    map[*transaction.Transaction]*JTx
 }
 
 // Logf appends to the deterministic event log.
@@ -333,7 +335,7 @@ func newBareWorld(o WorldOpts) *World {
 	bc, err := core.NewBlockchain(store, cfg, zap.NewNop())
 	must(err)
 	go bc.Run()
-	w := &World{BC: bc, N: n, Privs: privs, Pubs: pubs, Magic: cfg.Magic, C: map[string]*Deployed{}, Opts: o, record: RecordJournal, txMeta: map[*transaction.Transaction]*JTx{}}
+	w := &World{BC: bc, N: n, Privs: privs, Pubs: pubs, Magic: cfg.Magic, C: map[string]*Deployed{}, Opts: o, record: RecordJournal, txMeta: map[*transaction.Transaction]*JTx{}, sigMeta: map[*transaction.Transaction]*JTx{}}
 	w.Validator = Multi("validators", smartcontract.GetDefaultHonestNodeCount(n), privs)
 	w.Alphabet = Multi("alphabet", n*2/3+1, privs)
 	w.Committee = Multi("committee", n/2+1, privs)
@@ -364,6 +366,9 @@ func (w *World) rawTx(script []byte, signers []Signer, sysFee, netFee int64) *tr
 func (w *World) rawTxNonce(script []byte, signers []Signer, sysFee, netFee int64, nonce uint32) *transaction.Transaction {
 	tx := transaction.New(script, sysFee)
 	tx.Nonce = nonce
+	if TxHook != nil {
+		w.sigMeta[tx] = &JTx{Script: script, Signers: append([]Signer(nil), signers...)}
+	}
 	if w.record {
 		w.txMeta[tx] = &JTx{Script: script, Signers: append([]Signer(nil), signers...), SysFee: sysFee, NetFee: netFee, Nonce: nonce}
 	}
@@ -400,11 +405,39 @@ func (w *World) Tx(script []byte, signers []Signer, sysFee int64) *transaction.T
 	return w.rawTx(script, all, sysFee, 2_0000_0000)
 }
 
+// CallInfo is what a script built by CallScript invokes.
+type CallInfo struct {
+	Hash   util.Uint160
+	Method string
+	Args   []any
+}
+
+var callIndex = map[string]*CallInfo{}
+
+// LookupCall tells what a script built by CallScript invokes (nil for scripts
+// built any other way).
+func LookupCall(script []byte) *CallInfo { return callIndex[string(script)] }
+
+// ResetCallIndex forgets the scripts seen so far (called once per run).
+func ResetCallIndex() { callIndex = map[string]*CallInfo{} }
+
+// TxHook, if set, sees every transaction of every block right before the block
+// is fed to the chain (state = pre-block state). C03 uses it to re-evaluate
+// the same invocation under degraded signer sets in what-if VMs.
+var TxHook func(w *World, script []byte, signers []Signer)
+
+// ReadHook, if set, sees every what-if execution (used by C03 for the "safe
+// methods never modify state" clause).
+var ReadHook func(w *World, script []byte, p *Probe)
+
 // CallScript builds an invocation script.
 func CallScript(h util.Uint160, method string, args ...any) []byte {
 	s, err := smartcontract.CreateCallScript(h, method, args...)
 	if err != nil {
 		harnessf("call script %s: %v", method, err)
+	}
+	if len(callIndex) < 200000 {
+		callIndex[string(s)] = &CallInfo{Hash: h, Method: method, Args: args}
 	}
 	return s
 }
@@ -422,6 +455,18 @@ func (w *World) AddBlock(txs []*transaction.Transaction, dtMillis uint64) []*sta
 		dtMillis = 1
 	}
 	w.FinishJournal()
+	if TxHook != nil && !w.inHook {
+		w.inHook = true
+		for _, tx := range txs {
+			if m := w.sigMeta[tx]; m != nil {
+				TxHook(w, m.Script, m.Signers)
+			}
+		}
+		w.inHook = false
+	}
+	for _, tx := range txs {
+		delete(w.sigMeta, tx)
+	}
 	if BlockHook != nil && !w.inHook {
 		w.blocksFed++
 		w.inHook = true
@@ -603,6 +648,11 @@ func (w *World) WhatIf(script []byte, signers []Signer, dtMillis uint64) *Probe 
 			}
 			p.Ops = append(p.Ops, StorageOp{ID: id, Key: key, Value: op.Value})
 		}
+	}
+	if ReadHook != nil && !w.inReadHook {
+		w.inReadHook = true
+		ReadHook(w, script, p)
+		w.inReadHook = false
 	}
 	return p
 }
